@@ -116,6 +116,21 @@ def gen_stale_len(rng, prefix, count, runs):
                             {"maxcells": rng.choice([8, 16]), "maxsteps": 20000, "pglen": 2, "pgcap": 4, "pgmask": 3, "sample": SAMPLE}))
     return out
 
+def gen_directed_attach(tier, prefix="da"):
+    """a FULL table (4 of 4 slots) with one empty slot; one updater loses three cell CASes in a row to three others
+    (Add's own attempt and two in accumulate: the table must be re-allocated) while a fifth attaches a cell to the empty slot.
+    Searched with preemptions ONLY right before CAS / Store accesses (mode dfsw, 4 preemptions): every ordering in which
+    the attach lands inside the grower's (or the grow inside the attacher's) read-to-CAS windows"""
+    out = []
+    for kind in ["jdkadd", "jdkf"]:
+        for j, (mask, empty) in enumerate([(7, 3)] if tier == "quick" else [(7, 3), (11, 2)]):
+            hit = 1 if empty != 1 else 2
+            words = [hit, hit, hit, hit, empty] + [hit] * 30
+            ths = [["a8"], ["a16"], ["a32"], ["a64"], ["a128"]]
+            out.append(conc.Scn("%s_%s%d" % (prefix, kind, j), kind, words, ths, "dfsw 4 %d" % scale(tier, 40000, 400000),
+                                {"maxcells": 8, "maxsteps": 20000, "pglen": 4, "pgcap": 4, "pgmask": mask, "sample": 25}))
+    return out
+
 def rand_mode(tier, q, t):
     return lambda r: "rand %d %d" % (scale(tier, q, t), r.randint(1, 1 << 30))
 
@@ -128,6 +143,7 @@ def gen_c02(tier, rng):
     s += gen_growth(rng, "g", scale(tier, 24, 100), scale(tier, 400, 4000))
     s += gen_pregrown(rng, "h", scale(tier, 48, 120), scale(tier, 400, 4000))
     s += gen_stale_len(rng, "sl", scale(tier, 16, 60), scale(tier, 1200, 6000))
+    s += gen_directed_attach(tier)
     return s
 
 def gen_c09(tier, rng):
@@ -139,6 +155,7 @@ def gen_c09(tier, rng):
     s += gen_growth(rng, "g", scale(tier, 24, 120), scale(tier, 500, 4000), sums=0.0, readers=2)
     s += gen_pregrown(rng, "h", scale(tier, 48, 150), scale(tier, 500, 4000), sums=0.0, readers=1)
     s += gen_stale_len(rng, "sl", scale(tier, 16, 60), scale(tier, 1200, 6000))
+    s += gen_directed_attach(tier)
     return s
 
 ALLOPS = ["a", "a", "a", "i", "d", "s", "s", "r", "q", "w"]
@@ -194,6 +211,7 @@ def gen_c16(tier, rng):
     s += gen_growth(rng, "g", scale(tier, 12, 80), scale(tier, 400, 4000))
     s += gen_pregrown(rng, "h", scale(tier, 32, 100), scale(tier, 400, 4000))
     s += gen_stale_len(rng, "sl", scale(tier, 16, 60), scale(tier, 1200, 6000))
+    s += gen_directed_attach(tier)
     kinds = ["jdkadd", "jdkf", "rc", "atomic", "atomicf", "mutexadd"]
     # single-threaded scripts over the whole API
     for i in range(scale(tier, 150, 2500)):
